@@ -27,6 +27,7 @@ type ReloadPlan struct {
 	DelayBefore time.Duration // fake-time sleep before the inner Reload is attempted
 	DelayAfter  time.Duration // fake-time sleep after the inner Reload returned
 	Fail        bool          // return an injected error instead of calling the inner Reload
+	FailLow     bool          // let the inner Reload run and fail its low-level catch-up call (RocksDB back ends with a Low wrapper)
 }
 
 // ErrInjected is the error of an injected fault.
@@ -35,6 +36,8 @@ var ErrInjected = errors.New("injected fault")
 // Monitor records the life cycle of every back end opened during one run.
 type Monitor struct {
 	mu         sync.Mutex
+	LowFaults  int // low-level catch-up calls failed by injection
+	catchAt    map[string]uint64
 	y          Yielder
 	Backends   []*Backend
 	Violations []string
@@ -43,8 +46,8 @@ type Monitor struct {
 	ctxFor     map[string]string
 	// counters
 	Opens, Closes, Uses, Reloads, UseAfterClose, DoubleClose, ClosedWhilePinned int
-	LateBackends                                                                  int // backends that came back after their reload had timed out (set by harness)
-	Quiet                                                                         bool
+	LateBackends                                                                int // backends that came back after their reload had timed out (set by harness)
+	Quiet                                                                       bool
 	// Context is set by the harness (the operation in progress); every Close remembers it.
 	Context string
 	// CatchUps are the [start, end] event sequence numbers of every in-place reload (catch-up)
@@ -56,6 +59,7 @@ type Monitor struct {
 type CatchUp struct {
 	Start, End uint64
 	Ctx        string // Monitor.Context when the Reload call that performed it was made
+	At         uint64 // the exact point of the low-level catch-up call when the back end has a Low wrapper (else 0)
 }
 
 // New creates a monitor.
@@ -145,6 +149,8 @@ type Backend struct {
 	// CatchUp tells whether Reload(path) acts on the store of this very back end (RocksDB
 	// catch-up) rather than opening another one. nil = never (CDB-like drivers).
 	CatchUp func(path string) bool
+	// Low, when set, is the fault wrapper around the low-level RocksDB handle of this back end.
+	Low *LowFault
 	// Derive, when set, is called for every back end this one opens through Reload.
 	Derive func(nb *Backend, inner db.DBI, path string)
 }
@@ -312,11 +318,26 @@ func (b *Backend) Reload(path string) (db.DBI, error) {
 		if isCatchUp {
 			s0 = b.m.y.Seq()
 		}
-		nd, err = b.inner.Reload(path)
-		if isCatchUp {
+		lowFired := false
+		task := b.m.y.TaskName()
+		if p.FailLow && isCatchUp && b.Low != nil {
+			b.Low.arm(task)
+			nd, err = b.inner.Reload(path)
+			lowFired = b.Low.disarm(task)
+			if lowFired {
+				b.m.mu.Lock()
+				b.m.LowFaults++
+				b.m.mu.Unlock()
+			}
+		} else {
+			nd, err = b.inner.Reload(path)
+		}
+		if isCatchUp && !lowFired {
 			s1 := b.m.y.Seq()
 			b.m.mu.Lock()
-			b.m.CatchUps = append(b.m.CatchUps, CatchUp{s0, s1, ctx})
+			at := b.m.catchAt[task]
+			delete(b.m.catchAt, task)
+			b.m.CatchUps = append(b.m.CatchUps, CatchUp{s0, s1, ctx, at})
 			b.m.mu.Unlock()
 		}
 		if err == nil && nd != nil {
